@@ -23,6 +23,8 @@ import (
 	"github.com/segmentio/kafka-go/protocol/heartbeat"
 	"github.com/segmentio/kafka-go/protocol/joingroup"
 	"github.com/segmentio/kafka-go/protocol/leavegroup"
+	_ "github.com/segmentio/kafka-go/protocol/metadata"
+	_ "github.com/segmentio/kafka-go/protocol/offsetcommit"
 	"github.com/segmentio/kafka-go/protocol/offsetfetch"
 	"github.com/segmentio/kafka-go/protocol/syncgroup"
 )
@@ -32,7 +34,8 @@ type wireJournal struct {
 	keys    []int
 	members []string
 	syncs   chan struct{}
-	standby bool // SyncGroup answers ok with an EMPTY member assignment; the 2nd heartbeat answers 27
+	stall   map[int]bool // api keys whose requests are accepted and then neither answered nor closed
+	standby bool         // SyncGroup answers ok with an EMPTY member assignment; the 2nd heartbeat answers 27
 	hbs     int
 	joins   int
 	events  chan string
@@ -57,6 +60,9 @@ func (j *wireJournal) serve(c net.Conn) {
 		j.mu.Lock()
 		j.keys = append(j.keys, int(msg.ApiKey()))
 		j.mu.Unlock()
+		if j.stall[int(msg.ApiKey())] {
+			continue // accepted, never answered; the next read blocks until the client gives up
+		}
 		var res protocol.Message
 		switch m := msg.(type) {
 		case *apiversions.Request:
@@ -68,6 +74,8 @@ func (j *wireJournal) serve(c net.Conn) {
 				{ApiKey: int16(protocol.Heartbeat), MinVersion: 0, MaxVersion: 0},
 				{ApiKey: int16(protocol.OffsetFetch), MinVersion: 0, MaxVersion: 1},
 				{ApiKey: int16(protocol.ApiVersions), MinVersion: 0, MaxVersion: 0},
+				{ApiKey: int16(protocol.Metadata), MinVersion: 0, MaxVersion: 1},
+				{ApiKey: int16(protocol.OffsetCommit), MinVersion: 0, MaxVersion: 2},
 			}}
 		case *findcoordinator.Request:
 			res = &findcoordinator.Response{NodeID: 1, Host: "coordinator.test", Port: 9092}
